@@ -566,7 +566,9 @@ class Machine:
     def _time_pattern(self) -> None:
         inst = self.current_inst
         if inst.param0 == SetOp.INIT:
-            self._reg.time = inst.param1
+            # The pattern in the instruction belongs to the program; take a
+            # copy so that a subsequent union doesn't modify it.
+            self._reg.time = inst.param1.copy()
         else:
             self._reg.time.union(inst.param1)
 
